@@ -1,5 +1,6 @@
 #!/bin/bash
 # usage: confirm_seed.sh <PROP> <i>
+unset GOTOOLCHAIN GOFLAGS GOPROXY GOSUMDB
 # Confirms a sub-agent's seeded change in a scratch copy outside /repo and /verif:
 #  patch applies + builds; unedited suite passes with it; demo fails with it; demo passes without it.
 # Then runs every static check against the changed tree. Writes /verif/seeded/<PROP>-<i>/.
